@@ -288,11 +288,132 @@ theorem fixEnd_encTail : ∀ v : Cps, fixEnd (v.flatMap encChar) ++ [0x22] = enc
     rw [List.flatMap_cons, fixEnd_append _ _ (flatMap_encChar_ne_nil d t), List.append_assoc,
       fixEnd_encTail (d :: t), encTail]
 
-theorem helperString_eq (v : Cps) : helperString v = 0x22 :: encTail v := by
+/-- parity automaton of the trailing run of backslashes, read left to right -/
+def stA (s : Bool) (c : Nat) : Bool := if c = 0x5C then !s else false
+/-- "the last character is a backslash", read left to right -/
+def stB (_ : Bool) (c : Nat) : Bool := decide (c = 0x5C)
+
+theorem run_snoc (E : Cps) (c : Nat) :
+    ((E ++ [c]).reverse.takeWhile (· = 0x5C)).length =
+      if c = 0x5C then (E.reverse.takeWhile (· = 0x5C)).length + 1 else 0 := by
+  simp only [List.reverse_append, List.reverse_cons, List.reverse_nil, List.nil_append, List.singleton_append]
+  by_cases h : c = 0x5C <;> simp [List.takeWhile, h]
+
+theorem run_parity_rev (R : Cps) :
+    decide ((R.reverse.reverse.takeWhile (· = 0x5C)).length % 2 = 1) = R.reverse.foldl stA false := by
+  induction R with
+  | nil => simp
+  | cons c R ih =>
+    generalize hE : R.reverse = E at ih
+    rw [List.reverse_cons, hE, run_snoc, List.foldl_append]
+    simp only [List.foldl_cons, List.foldl_nil, stA]
+    by_cases h : c = 0x5C
+    · simp only [h, if_true]
+      rw [← ih]
+      by_cases hp : (E.reverse.takeWhile (· = 0x5C)).length % 2 = 1
+      · simp [hp]; omega
+      · simp [hp]; omega
+    · simp [h]
+
+theorem run_parity (E : Cps) : decide ((E.reverse.takeWhile (· = 0x5C)).length % 2 = 1) = E.foldl stA false := by
+  have := run_parity_rev E.reverse
+  simpa using this
+
+theorem last_bs_rev (R : Cps) : decide (R.reverse.getLast? = some 0x5C) = R.reverse.foldl stB false := by
+  cases R with
+  | nil => simp
+  | cons c R =>
+    rw [List.reverse_cons, List.foldl_append]
+    simp [stB]
+
+theorem last_bs (E : Cps) : decide (E.getLast? = some 0x5C) = E.foldl stB false := by
+  have := last_bs_rev E.reverse
+  simpa using this
+
+theorem encChar_st (c : Nat) (hc : c ≠ 0x5C) (s : Bool) :
+    (encChar c).foldl stA s = false ∧ (encChar c).foldl stB s = false := by
+  unfold encChar
+  by_cases h10 : c = 10
+  · subst h10; simp [stA, stB]
+  · by_cases h13 : c = 13
+    · subst h13; simp [stA, stB]
+    · by_cases h12 : c = 12
+      · subst h12; simp [stA, stB]
+      · by_cases h22 : c = 0x22
+        · subst h22; simp [stA, stB]
+        · simp [h10, h13, h12, h22, stA, stB, hc]
+
+theorem encChar_bs : encChar 0x5C = [0x5C] := by decide
+
+/-- on a value the scan accepts (quoted mode), the trailing run of backslashes of the escaped text is empty or odd:
+the parity automaton and the "ends in a backslash" automaton end in the same state -/
+theorem scan_run (m : Mode) (hm : m.trailBad = true) (v : Cps) (h : scan m v = none) :
+    (v.flatMap encChar).foldl stA false = (v.flatMap encChar).foldl stB false := by
+  fun_induction scan m v with
+  | case1 => rfl
+  | case2 => simp [encChar_bs, stA, stB]
+  | case3 ht => simp at h
+  | case4 ht => simp [hm] at ht
+  | case5 e tail ih =>
+    simp only [List.flatMap_cons, encChar_bs, List.singleton_append, List.foldl_cons, stA, stB, if_true,
+      Bool.not_false, Bool.not_true, decide_true] at ih ⊢
+    by_cases he : e = 0x5C
+    · subst he
+      simp only [encChar_bs, List.singleton_append, List.foldl_cons, stA, stB, if_true, Bool.not_false, decide_true] at ih ⊢
+      exact ih h
+    · rw [List.foldl_append, List.foldl_append, (encChar_st e he _).1, (encChar_st e he _).2]
+      have := ih h
+      rw [List.foldl_append, List.foldl_append, (encChar_st e he _).1, (encChar_st e he _).2] at this
+      exact this
+  | case6 e tail hne hh hnum => simp [hnum] at h
+  | case7 e tail hne hh hnum ih =>
+    have h' : scan m tail = none := by simpa [hnum] using h
+    simp only [List.flatMap_cons, encChar_bs, List.singleton_append, List.foldl_cons]
+    rw [List.foldl_append, List.foldl_append, (encChar_st e hne _).1, (encChar_st e hne _).2]
+    exact ih h'
+  | case8 e tail hne hh hnl => simp at h
+  | case9 tail _ _ _ => simp at h
+  | case10 e tail hne hh hnl hdq ih =>
+    simp only [List.flatMap_cons, encChar_bs, List.singleton_append, List.foldl_cons]
+    rw [List.foldl_append, List.foldl_append, (encChar_st e hne _).1, (encChar_st e hne _).2]
+    exact ih h
+  | case11 c t hc ih =>
+    simp only [List.flatMap_cons]
+    rw [List.foldl_append, List.foldl_append, (encChar_st c hc _).1, (encChar_st c hc _).2]
+    exact ih h
+
+
+/-- `helper.string` on a value the scan accepts. Since 61e31a0 `helper.string` appends a backslash only to an ODD trailing
+run; on the values the scan accepts (the run is empty or odd, `scan_run`) that is what `encTail` describes. A value that
+ends in an escaped backslash (class `trail`) is written complete now, but read back with one backslash less
+(`stringvalue` takes `\"` for an escaped quote): it stays outside the safe domain. -/
+theorem helperString_eq (m : Mode) (hm : m.trailBad = true) (v : Cps) (h : scan m v = none) :
+    helperString v = 0x22 :: encTail v := by
   unfold helperString
   simp only [replace_chain]
   rw [← fixEnd_encTail]
-  rfl
+  have h1 := run_parity (v.flatMap encChar)
+  have h2 := last_bs (v.flatMap encChar)
+  have h3 := scan_run m hm v h
+  have key : ((List.takeWhile (fun x => decide (x = 0x5C)) (v.flatMap encChar).reverse).length % 2 = 1) ↔
+      (v.flatMap encChar).getLast? = some 0x5C := by
+    rw [← decide_eq_decide, h1, h2, h3]
+  unfold fixEnd
+  simp only [List.cons_append]
+  by_cases hl : (v.flatMap encChar).getLast? = some 0x5C
+  · have hne : v.flatMap encChar ≠ [] := by intro e; rw [e] at hl; simp at hl
+    have hd : (v.flatMap encChar).dropLast ++ [0x5C, 0x5C] = v.flatMap encChar ++ [0x5C] := by
+      have h5 := List.dropLast_concat_getLast hne
+      have h6 : (v.flatMap encChar).getLast hne = 0x5C := by
+        rw [List.getLast?_eq_getLast hne] at hl; exact Option.some.inj hl
+      rw [h6] at h5
+      calc (v.flatMap encChar).dropLast ++ [0x5C, 0x5C]
+          = ((v.flatMap encChar).dropLast ++ [0x5C]) ++ [0x5C] := by simp
+        _ = v.flatMap encChar ++ [0x5C] := by rw [h5]
+    rw [if_pos (key.2 hl), if_pos hl, hd]
+  · have hn : ¬ ((List.takeWhile (fun x => decide (x = 0x5C)) (v.flatMap encChar).reverse).length % 2 = 1) :=
+      fun e => hl (key.1 e)
+    rw [if_neg hn, if_neg hl]
 
 /-! ## what `unicodesub` does to the written form of a safe value -/
 
@@ -498,7 +619,8 @@ theorem encTail_noNl : ∀ v : Cps, NoNl (encTail v)
     · exact encTail_noNl (d :: t) x hx
 
 /-- T3.1 core: for a safe value, reading back what `helper.string` wrote gives the value -/
-theorem strD_strE_of_scan (m : Mode) (v : Cps) (h : scan m v = none) : strD (strE v) = some v := by
+theorem strD_strE_of_scan (m : Mode) (hm : m.trailBad = true) (v : Cps) (h : scan m v = none) :
+    strD (strE v) = some v := by
   have e1 : usub (encTail v) = midTail v := by
     have := usub_encTail m v [] h
     simpa using this
@@ -508,7 +630,7 @@ theorem strD_strE_of_scan (m : Mode) (v : Cps) (h : scan m v = none) : strD (str
     rcases hx with rfl | hx
     · decide
     · exact encTail_noNl v x hx
-  simp only [strD, strE, tokValue, helperString_eq]
+  simp only [strD, strE, tokValue, helperString_eq m hm v h]
   rw [ssub_eq_usub _ hn, usub_cons_ne _ (by decide), e1, stringvalue_midTail]
 
 /-! ## the written form is one STRING token -/
@@ -692,10 +814,12 @@ theorem lex_encTail (m : Mode) (hm : m.trailBad = true) (v rest : Cps) (h : scan
 
 def urlPrefix : Cps := [0x75, 0x72, 0x6C, 0x28]
 
-theorem helperUri_eq (v : Cps) :
+theorem helperUri_eq (v : Cps) (h : forbMatch v = true → scan .quoted v = none) :
     helperUri v = urlPrefix ++ (if forbMatch v then 0x22 :: encTail v else v) ++ [0x29] := by
   unfold helperUri urlPrefix
-  split <;> simp [helperString_eq]
+  split
+  · rename_i hf; simp [helperString_eq .quoted rfl v (h hf)]
+  · simp
 
 theorem usub_urlPrefix (X : Cps) : usub (urlPrefix ++ X) = urlPrefix ++ usub X :=
   usub_plain_append _ _ (by simp [urlPrefix])
@@ -870,7 +994,8 @@ theorem unquoteUri_no_forb (v : Cps) (hv : ∀ x ∈ v, isForb x = false) : unqu
 give a safe value back from what `helper.uri` wrote -/
 theorem uriD_uriE_of_class (v : Cps) (h : uriClass v = none) : uriD (uriE v) = some v ∧ uriDTok (uriE v) = some v := by
   unfold uriClass at h
-  simp only [uriD, uriDTok, uriE, tokValue, helperUri_eq]
+  have hq : forbMatch v = true → scan .quoted v = none := fun hf => by simpa [hf] using h
+  simp only [uriD, uriDTok, uriE, tokValue, helperUri_eq v hq]
   by_cases hf : forbMatch v = true
   · simp only [hf, if_true] at h ⊢
     obtain ⟨e1, e2, e3⟩ := uri_quoted_core .quoted v h
@@ -919,7 +1044,8 @@ theorem wsClose_close (rest : Cps) : wsClose (0x29 :: rest) = some 1 := by simp 
 theorem lexUri_uriE_of_class (v rest : Cps) (h : uriClass v = none) :
     lexUriPlain (uriE v ++ rest) = some (uriE v).length := by
   unfold uriClass at h
-  simp only [uriE, helperUri_eq]
+  have hq : forbMatch v = true → scan .quoted v = none := fun hf => by simpa [hf] using h
+  simp only [uriE, helperUri_eq v hq]
   by_cases hf : forbMatch v = true
   · simp only [hf, if_true] at h ⊢
     have hl := lex_encTail .quoted rfl v (0x29 :: rest) h
